@@ -81,7 +81,9 @@ func (t *Tree) setBlock(name string, body *BlockNode) {
 }
 
 func (t *Tree) enrichError(err error) error {
-	if err, ok := err.(ParsingError); ok {
+	// ParsingError cannot be asserted here: it demands a Pos() method, which
+	// no error type has (they expose their position as an embedded Pos).
+	if err, ok := err.(interface{ setTree(t *Tree) }); ok {
 		err.setTree(t)
 	}
 	return err
